@@ -62,16 +62,23 @@ ApplyAll(ds, io) == IF io = <<>> THEN ds ELSE ApplyAll(ApplyEv(ds, Head(io)), Ta
 RECURSIVE DurableAfter(_)
 DurableAfter(h) == IF h = <<>> THEN DS0 ELSE ApplyAll(DurableAfter(SubSeq(h, 1, Len(h) - 1)), h[Len(h)].io)
 
-\* what the last completed flush made durable, and which of those regions nothing has touched since
+\* what the last completed flush made durable (fl), which of those regions nothing has touched since (un), where they lay (ex)
+\* and which had bytes of their flushed extent overwritten in place since (ip).  Region::flush that syncs is a flush of both files.
+HasSync(e) == \E k \in 1..Len(e.io) : e.io[k].k = "syncdata"
+IsFlushOp(e) == e.op \in {"flush", "compact", "reopen"} \/ (e.op = "rflush" /\ HasSync(e))
+ExtOf(e) == [nm \in {x[1] : x \in e.alloc.regs} |-> LET x == CHOOSE y \in e.alloc.regs : y[1] = nm IN <<x[2], x[3]>>]
+Hit(e, ex) == {nm \in DOMAIN ex : \E k \in 1..Len(e.io) : e.io[k].k = "wdata" /\ e.io[k].at < ex[nm][1] + ex[nm][2] /\ e.io[k].at + e.io[k].len > ex[nm][1]}
 Commit(h) ==
   LET RECURSIVE F(_)
-      F(k) == IF k = 0 THEN [fl |-> EmptyFn, un |-> {}]
+      F(k) == IF k = 0 THEN [fl |-> EmptyFn, un |-> {}, ex |-> EmptyFn, ip |-> {}]
               ELSE LET p == F(k - 1) e == h[k] IN
-                   IF e.op \in {"flush", "compact", "reopen"} /\ e.res = "ok" THEN [fl |-> e.exp, un |-> (DOMAIN e.exp) \cap e.persist]   \* a region whose slot was never written is not on disk (RawDb: persist)
-                   ELSE IF e.op \in {"write", "truncate", "remove", "rflush"} THEN [p EXCEPT !.un = p.un \ {e.args[1]}]
-                   ELSE IF e.op = "rename" THEN [p EXCEPT !.un = p.un \ {e.args[1], e.args[2]}]
-                   ELSE IF e.op = "create" THEN [p EXCEPT !.un = p.un \ {e.args[1]}]
-                   ELSE p
+                   IF IsFlushOp(e) /\ e.res = "ok"
+                   THEN LET keep == (DOMAIN e.exp) \cap e.persist IN     \* a region whose slot was never written is not on disk (RawDb: persist)
+                        [fl |-> [nm \in keep |-> e.exp[nm]], un |-> keep, ex |-> [nm \in keep \cap DOMAIN ExtOf(e) |-> ExtOf(e)[nm]], ip |-> {}]
+                   ELSE LET p1 == [p EXCEPT !.ip = p.ip \cup Hit(e, p.ex)] IN
+                        IF e.op \in {"write", "truncate", "remove", "rflush", "create"} THEN [p1 EXCEPT !.un = p.un \ {e.args[1]}]
+                        ELSE IF e.op = "rename" THEN [p1 EXCEPT !.un = p.un \ {e.args[1], e.args[2]}]
+                        ELSE p1
   IN F(Len(h))
 
 \* every file image a crash can leave behind in durable state ds
@@ -119,13 +126,36 @@ CrashPoints(h) ==
 \* the commit record that applies at a crash point inside the last operation: a flush counts once it has returned
 CommitAt(h) == IF h = <<>> THEN Commit(h) ELSE
   LET prev == Commit(SubSeq(h, 1, Len(h) - 1)) e == h[Len(h)] IN
-  IF e.op \in {"flush", "compact", "reopen"} THEN prev       \* interrupted: the previous flush is the reference; its regions are untouched by a flush
+  IF IsFlushOp(e) THEN prev                                   \* interrupted: the previous flush is the reference; its regions are untouched by a flush
   ELSE Commit(h)                                             \* the interrupted operation's own target is exempt
 
 CrashSafe == (g.dev = {}) =>
   \A ds \in CrashPoints(hist) : \A im \in Images(ds) : ImageOk(im, CommitAt(hist))
 \* after the operation has returned, too (the state between two calls), with the operation's own commit if it was a flush
 CrashSafeAfter == (g.dev = {}) => \A im \in Images(DurableAfter(hist)) : ImageOk(im, Commit(hist))
+
+\* C05, second sentence: if pages reach the disk only through the library's own syncs (the durable image, no write-back choice),
+\* every flushed region whose flushed bytes were not overwritten in place recovers as flushed or - inside a flush - as it was when
+\* that flush began, never a mixture
+DurableOnly(ds) == [data |-> ds.dd, meta |-> ds.dm, dlen |-> ds.dlen, mlen |-> ds.mlen]
+RecBytes(im, nm) == {RegionBytes(im, im.meta[i]) : i \in {j \in Recovered(im) : im.meta[j].id = nm}}
+SyncOnlyBody ==
+  LET h == hist
+      e == h[Len(h)]
+      before == DurableAfter(SubSeq(h, 1, Len(h) - 1))
+      start == IF Len(h) > 1 THEN h[Len(h) - 1].exp ELSE EmptyFn       \* contents when the last operation began
+      prev == Commit(SubSeq(h, 1, Len(h) - 1))
+  IN \A k \in 0..Len(e.io) :
+       LET im == DurableOnly(ApplyAll(before, SubSeq(e.io, 1, k)))
+           inFlush == IsFlushOp(e) /\ k > 0 /\ k < Len(e.io)
+           cm == IF k = Len(e.io) THEN Commit(h) ELSE IF IsFlushOp(e) THEN prev ELSE [Commit(h) EXCEPT !.ip = prev.ip \cup Hit([e EXCEPT !.io = SubSeq(e.io, 1, k)], prev.ex)]
+       IN WellFormed(im) /\
+          \A nm \in (DOMAIN cm.fl) \ cm.ip :
+             \/ cm.fl[nm] \in RecBytes(im, nm)
+             \/ inFlush /\ nm \in DOMAIN start /\ start[nm] \in RecBytes(im, nm)
+             \/ inFlush /\ RecBytes(im, nm) = {} /\ (nm \notin DOMAIN start \/ start[nm] = <<>>)
+SyncOnlySafe == (g.dev = {} /\ hist # <<>>) => SyncOnlyBody
+SyncOnlySafeAny == hist # <<>> => SyncOnlyBody
 
 \* the same without the "no known deviation taken" guard: used to show that the model sees the recorded deviations (D15)
 CrashSafeAny == /\ \A ds \in CrashPoints(hist) : \A im \in Images(ds) : ImageOk(im, CommitAt(hist))
@@ -143,5 +173,10 @@ PunchSafe == (g.dev = {} /\ hist # <<>>) =>
 \* the cache image rebuilt from the events is the model's volatile image (sanity of the event stream)
 CacheAgrees == LET ds == DurableAfter(hist) IN \A c \in (DOMAIN ds.c) \cup (DOMAIN r.data) : CellOf(ds.c, c) = CellOf(r.data, c)
 
-CView == <<r, g, DurableAfter(hist), Commit(hist)>>
+\* the view holds everything the invariants look at: the state, the durable state and commit record now AND before the last
+\* operation, the last operation's events and the contents when it began (two histories are merged only if all of that agrees)
+CView == IF hist = <<>> THEN <<r, g>>
+         ELSE LET pre == SubSeq(hist, 1, Len(hist) - 1) IN
+              <<r, g, DurableAfter(hist), Commit(hist), DurableAfter(pre), Commit(pre), hist[Len(hist)].op, hist[Len(hist)].io,
+                IF Len(hist) > 1 THEN hist[Len(hist) - 1].exp ELSE EmptyFn>>
 ===========================================================================
